@@ -10,13 +10,15 @@ TECHNIQUE = "explicit-state BFS over a real task.Clock, lock-step reference time
 RULE = ("BFS over histories of callLater(d in {0,1,2}) with an optional one-step script run by the call itself "
         "(callLater(0)/callLater(1) from inside; cancel / reset sooner / reset later / delay +/- of the oldest or "
         "newest other pending call), cancel(i), reset(i, {0,1,3}), delay(i, {-1,+1,+2}) and advance({0,1,2,8}) on a "
-        "real Clock. Every transition runs on the real Clock; each run event (which advance, clock time, what "
+        "real Clock, from an empty Clock and from one holding four pending calls for times 0..3. Every transition runs on the real Clock; each run event (which advance, clock time, what "
         "else was pending, creation order among same-time never-rescheduled calls) and getDelayedCalls() after "
         "every operation and inside every running call are compared with a dict-of-times reference. non-trivial "
         "= distinct (state, exercised case) pairs for transitions that ran a call, rescheduled or cancelled a "
         "call, or ran a script")
-BOUNDS = {"quick": "<= 4 live user calls; depth 5 with <= 1 scripted call and depth 4 with <= 2 scripted calls per history",
-          "thorough": "<= 4 live user calls; depth 6 with <= 1 scripted call and depth 5 with <= 2 scripted calls per history"}
+BOUNDS = {"quick": "<= 4 live user calls; from empty: depth 5 with <= 1 scripted call and depth 4 with <= 2 scripted calls per "
+                   "history; from 4 preset pending calls (times 0..3): depth 4, no scripts",
+          "thorough": "<= 4 live user calls; from empty: depth 6 with <= 1 scripted call and depth 5 with <= 2 scripted calls per "
+                      "history; from 4 preset pending calls (times 0..3): depth 5 with <= 1 scripted call"}
 ASSUMPTIONS = [
     "integer times: the reference and the Clock compute the same sums exactly",
     "canonical state = pending calls in creation order (time relative to now, script, rescheduled flag) + the "
@@ -24,8 +26,8 @@ ASSUMPTIONS = [
     "'calls run in nondecreasing scheduled time' is decided as: when a call runs no other pending call is "
     "scheduled strictly earlier (a call moved before an already-run call cannot run before it)",
 ]
-MIN = {"quick": {"states": 470000, "nontrivial": 470000, "outcomes": 14},
-       "thorough": {"states": 470000, "nontrivial": 470000, "outcomes": 14}}
+MIN = {"quick": {"states": 550000, "nontrivial": 520000, "outcomes": 14},
+       "thorough": {"states": 550000, "nontrivial": 520000, "outcomes": 14}}
 
 LEVEL_TEXT = ("every history of the alphabet up to the depth bound is executed on a real task.Clock and every run "
               "event and getDelayedCalls() is compared with a dict-of-times reference; a pass means no such history "
@@ -33,15 +35,24 @@ LEVEL_TEXT = ("every history of the alphabet up to the depth bound is executed o
               "creation order among same-time never-rescheduled calls")
 LEVEL_NOTE = "bounded: integer times, <= 4 live user calls, one-step scripts, depth 4..6; functions do not raise"
 
-# families (depth, max scripted calls per history) explored per tier
-FAMILIES = {"quick": [(5, 1), (4, 2)], "thorough": [(6, 1), (5, 2)]}
+# families (initial state, depth, max scripted calls per history) explored per tier.
+# "warm4": four pending never-rescheduled calls for times 0,1,2,3 already in Clock.calls, so that a
+# few postponements (which do not re-sort) followed by a callLater for an existing time and an advance
+# fit in a short history (order-of-insertion bugs that only show on an unsorted list)
+FAMILIES = {"quick": [("empty", 5, 1), ("empty", 4, 2), ("warm4", 4, 0)],
+            "thorough": [("empty", 6, 1), ("empty", 5, 2), ("warm4", 5, 1)]}
 CAP = 4
 SCRIPT_IDS = tuple(range(1, 13))
 SPLIT = {"quick": 1, "thorough": 2}
 
 
-def make():
-    return T.Timers("clock")
+def make(init="empty"):
+    tm = T.Timers("clock")
+    if init == "warm4":
+        for d in (0, 1, 2, 3):
+            tm.new_call(d, None, True, False)
+        tm.ops = 0
+    return tm
 
 
 def apply(tm, ev):
@@ -52,9 +63,9 @@ def canon(tm):
     return hash(tm.canon())    # PYTHONHASHSEED is fixed by ./check
 
 
-def _initial(prefix):
+def _initial(init, prefix):
     def mk():
-        tm = make()
+        tm = make(init)
         for ev in prefix:
             tm.apply(ev)
         return tm
@@ -68,40 +79,40 @@ def _enabled(scripted):
 def shards(tier, seed):
     out = []
     split = SPLIT[tier]
-    for depth, scripted in FAMILIES[tier]:
-        out.append(["pre", [depth, scripted], []])
+    for init, depth, scripted in FAMILIES[tier]:
+        out.append(["pre", [init, depth, scripted], []])
         front = []
-        bfs(_initial([]), apply, _enabled(scripted), canon, lambda st, h: (), split,
+        bfs(_initial(init, []), apply, _enabled(scripted), canon, lambda st, h: (), split,
             on_state=lambda st, h: front.append([list(e) for e in h]) if len(h) == split else None)
-        out.extend(["sub", [depth, scripted], h] for h in front)
+        out.extend(["sub", [init, depth, scripted], h] for h in front)
     return out
 
 
 def run_shard(shard, tier, seed):
-    mode, (fdepth, scripted), prefix = shard[0], shard[1], [tuple(e) for e in shard[2]]
+    mode, (init, fdepth, scripted), prefix = shard[0], shard[1], [tuple(e) for e in shard[2]]
     depth = SPLIT[tier] if mode == "pre" else fdepth - SPLIT[tier]
     stats = Stats()
 
     def inv(tm, hist):
         fl = tm.last_flags
         if fl:
-            stats.nt((hash(tm.canon()), tuple(sorted(fl))))
+            stats.nt((init, hash(tm.canon()), tuple(sorted(fl))))
             for f in fl:
                 stats.outcome(f)
         return tm.bad
 
-    res = bfs(_initial(prefix), apply, _enabled(scripted), canon, inv, depth)
+    res = bfs(_initial(init, prefix), apply, _enabled(scripted), canon, inv, depth)
     pre = [list(e) for e in prefix]
     for i, (sig, detail, hist) in enumerate(res.violations):
         res.violations[i] = (sig, detail, pre + [list(e) for e in hist])
     res.samples = [pre + [list(e) for e in h] for h in res.samples[-2:]]
-    stats.add_bfs(res, {})
-    stats.samples = [{"history": h} for h in res.samples]
+    stats.add_bfs(res, {"init": init})
+    stats.samples = [{"init": init, "history": h} for h in res.samples]
     return stats
 
 
 def replay(w):
-    tm = make()
+    tm = make(w.get("init", "empty"))
     for ev in w["history"]:
         tm.apply(tuple(ev))
     return list(tm.bad)
